@@ -142,17 +142,20 @@ def enc : AObj → Nat
   | .owned => 0
   | .site s => s + 1
 
-/-- a candidate solution.  `pts` is the concatenation of one `w`-bit mask per variable (variable `x` occupies
-    bits `x*w … x*w+w-1`), `cont` one `w`-bit mask per encoded abstract object; bit `enc o` of a mask says
-    that `o` is in the set. -/
+/-- a candidate solution.  One `w`-bit mask per variable (`pts`) and per encoded abstract object (`cont`);
+    bit `enc o` of a mask says that `o` is in the set.  The masks are packed `k` to a natural number
+    (entry `i` is in piece `i / k` at bits `(i % k)*w … (i % k)*w + w - 1`), so a lookup is a handful of
+    GMP operations on a moderately sized literal. -/
 structure SolB where
   w : Nat
-  pts : Nat
-  cont : Nat
+  k : Nat
+  pts : List Nat
+  cont : List Nat
   deriving Repr, BEq, DecidableEq
 
-def SolB.ptsOf (b : SolB) (x : Var) : Nat := (b.pts >>> (x * b.w)) % 2 ^ b.w
-def SolB.contOf (b : SolB) (o : Nat) : Nat := (b.cont >>> (o * b.w)) % 2 ^ b.w
+def SolB.look (b : SolB) (t : List Nat) (i : Nat) : Nat := (t.getD (i / b.k) 0 >>> ((i % b.k) * b.w)) % 2 ^ b.w
+def SolB.ptsOf (b : SolB) (x : Var) : Nat := b.look b.pts x
+def SolB.contOf (b : SolB) (o : Nat) : Nat := b.look b.cont o
 
 /-- `a ⊆ b` on bit masks -/
 def subset (a b : Nat) : Bool := a &&& b == a
@@ -247,6 +250,11 @@ def maxSite (is : List Instr) : Nat :=
 def pack (w : Nat) (l : List Nat) : Nat :=
   (l.foldl (fun (acc : Nat × Nat) m => (acc.1 ||| (m <<< (acc.2 * w)), acc.2 + 1)) (0, 0)).1
 
+/-- pieces of `k` masks -/
+def packPieces (w k : Nat) (l : List Nat) : Nat → List Nat
+  | 0 => []
+  | fuel + 1 => if l.isEmpty then [] else pack w (l.take k) :: packPieces w k (l.drop k) fuel
+
 /-- iterate `relax` over the whole program `fuel` times (or until nothing changes), then pack the tables -/
 def solve (p : Prog) (fuel : Nat := 64) : SolB :=
   let n := maxSite p.instrs + 1
@@ -257,6 +265,6 @@ def solve (p : Prog) (fuel : Nat := 64) : SolB :=
       let b' := p.instrs.foldl relax b
       if b' == b then b else go k b'
   let r := go fuel b0
-  { w := n, pts := pack n r.pts, cont := pack n r.cont }
+  { w := n, k := 16, pts := packPieces n 16 r.pts (r.pts.length + 1), cont := packPieces n 16 r.cont (r.cont.length + 1) }
 
 end PersimVerif.IR
